@@ -190,8 +190,29 @@ def gen_monoidal(rng, nboxes, cls="monoidal", atoms=("x", "y"), maxw=6,
     boxes, offsets = [], []
     connected_mode = rng.random() < p_connected
     degenerate = rng.random() < p_degenerate
+    pair_pending = None
     for k in range(nboxes):
-        nin = rng.randint(0, min(2, len(cur))) if degenerate else \
+        if pair_pending is not None:
+            # second half of a 'tie': a state at the very offset where an effect has just ended a wire
+            # (such a pair can be exchanged on either side - the case where the preference matters)
+            off, nin, nout = pair_pending, 0, 1
+            pair_pending = None
+            bcod = [atom()]
+            boxes.append({"name": "st%d" % k, "dom": [], "cod": bcod, "kind": "box", "dagger": False})
+            offsets.append(off)
+            cur = cur[:off] + bcod + cur[off:]
+            prod = prod[:off] + [k] + prod[off:]
+            continue
+        if cur and k + 1 < nboxes and rng.random() < 0.12:
+            off = rng.randrange(len(cur))
+            boxes.append({"name": "ef%d" % k, "dom": [list(cur[off])], "cod": [], "kind": "box",
+                          "dagger": False})
+            offsets.append(off)
+            cur = cur[:off] + cur[off + 1:]
+            prod = prod[:off] + prod[off + 1:]
+            pair_pending = off
+            continue
+        nin = rng.randint(0, min(2, len(cur))) if degenerate or rng.random() < 0.15 else \
             (rng.randint(1, min(2, len(cur))) if cur else 0)
         if rng.random() < 0.1 and len(cur) >= 3:
             nin = 3
@@ -204,8 +225,8 @@ def gen_monoidal(rng, nboxes, cls="monoidal", atoms=("x", "y"), maxw=6,
                 offs = good
         off = rng.choice(offs)
         nout = rng.choice([0, 0, 1, 1, 2]) if degenerate else rng.choice([1, 1, 2])
-        if connected_mode and nout == 0 and k < nboxes - 1:
-            nout = 1
+        if connected_mode and nout == 0 and k < nboxes - 1 and (len(cur) - nin == 0 or rng.random() < 0.5):
+            nout = 1          # (an effect in the middle is fine as long as other wires go on)
         if len(cur) - nin + nout > maxw:
             nout = max(0, maxw - (len(cur) - nin))
         name = rng.choice(["f", "g"]) if rng.random() < p_samename else "b%d" % k
